@@ -749,6 +749,28 @@ theorem pool1_step {s : St} (h : Pool1 ci s) (op : Op) (hct : contractOk s op) :
     | pick call pn m ctx dl req => exact pool1_opPick h call pn m ctx dl req
     | ctxdone call => exact pool1_opCtxDone h call
     | done call err reply => exact pool1_opDone h call err reply
+    | pickHold call pn m ctx dl req =>
+      exact opPickHold_cases _ s call pn m ctx dl req h
+        (fun _ => ⟨h.cin, bij_of_same h.bij ⟨rfl, rfl, fun _ => rfl⟩, tables_of_same h.tab ⟨rfl, rfl, rfl, rfl, rfl, rfl, rfl⟩, h.cfgOk, h.size⟩)
+        (pool1_opPick h call pn m ctx dl req)
+    | resume call =>
+      refine opResume_cases _ s call h
+        (fun _ => ⟨h.cin, bij_of_same h.bij ⟨rfl, rfl, fun _ => rfl⟩, tables_of_same h.tab ⟨rfl, rfl, rfl, rfl, rfl, rfl, rfl⟩, h.cfgOk, h.size⟩) ?_
+      intro hl c hc hg
+      have h' : Pool1 ci { s with held := hl } :=
+        ⟨h.cin, bij_of_same h.bij ⟨rfl, rfl, fun _ => rfl⟩, tables_of_same h.tab ⟨rfl, rfl, rfl, rfl, rfl, rfl, rfl⟩, h.cfgOk, h.size⟩
+      refine pool1_newSubConn h' (fun _ => ?_)
+      show s.scRefs.length < (initialCfg s.cfgIn).max
+      have hce : c = initialCfg s.cfgIn := by
+        rcases h.cfgOk with h0 | h0
+        · rw [hc] at h0; cases h0
+        · rw [hc] at h0; exact Option.some.inj h0
+      have hpos := initialCfg_max_pos s.cfgIn
+      rw [hce] at hg
+      simp only [Bool.or_eq_true, beq_iff_eq, decide_eq_true_eq] at hg
+      rcases hg with hg | hg
+      · omega
+      · exact hg
   unfold step
   generalize stepCore s op = r at h1 ⊢
   obtain ⟨s1, ev⟩ := r
